@@ -61,6 +61,11 @@ inductive Event where
   | dgram (d : Datagram)
   /-- `recv_from` returned `Err(io)` -/
   | ioErr
+  /-- pseudo-event put *first* on a transmission whose set-up fails before anything is received:
+  the request does not encode (`request.to_vec()?`), `NextRandomUdpSocket` gives up
+  (`.await?`), `send_to` fails or sends fewer bytes than the message has. Takes nothing from the
+  socket. -/
+  | setupFail
   deriving DecidableEq, Repr, Inhabited
 
 structure Request where
@@ -76,7 +81,7 @@ inductive SkipWhy where
   deriving DecidableEq, Repr
 
 inductive FailWhy where
-  | io | parse | notResponse | caseMismatch
+  | io | parse | notResponse | caseMismatch | setup
   deriving DecidableEq, Repr
 
 inductive Step where
@@ -127,6 +132,7 @@ def endsInsteadOfSkipped (rq : Request) (d : Datagram) : Bool :=
 
 def examine (rq : Request) : Event → Step
   | .ioErr => .fail .io
+  | .setupFail => .fail .setup
   | .dgram d => examineD rq d
 
 /-- How one transmission's receive loop ends. Indices are positions in the arrival list. -/
@@ -159,9 +165,21 @@ def recv (rq : Request) (es : List Event) : RecvOutcome := recvLoop rq MAX_EXAMI
 /-- number of `recv_from` results the loop took -/
 def RecvOutcome.consumed : RecvOutcome → Nat
   | .accept i => i + 1
-  | .fail i _ => i + 1
+  | .fail i w => if w = .setup then i else i + 1
   | .exceeded => MAX_EXAMINED
   | .starved c => c
+
+/-! ## socket set-up (`NextRandomUdpSocket`, udp_stream.rs; `send_to`) -/
+
+/-- `NextRandomUdpSocket::poll`: a bind failing with `AddrInUse` / `PermissionDenied` is retried while
+`attempted < ATTEMPT_RANDOM + 1`, i.e. eleven such failures are tolerated and the twelfth is returned. -/
+def BIND_RETRIES : Nat := 11
+
+/-- does the set-up of a transmission fail: `retryable` = number of consecutive `AddrInUse` /
+`PermissionDenied` results the provider gives, `fatal` = a bind error of another kind, `sendOk` =
+`send_to` succeeds and reports the full length. -/
+def setupFails (retryable : Nat) (fatal sendOk : Bool) : Bool :=
+  fatal || decide (retryable > BIND_RETRIES) || !sendOk
 
 /-! ## the query: retransmissions and the overall timeout -/
 
